@@ -434,6 +434,37 @@ fn main() {
             }
             if bad.is_empty() { println!("OK kleene {what} {wher}: {count} runs agree") } else { println!("REPRODUCED kleene {what} {wher}: {}", bad.join("; ")); std::process::exit(1) }
         }
+        "negpart" => {
+            // C04 / C01: a `.not(...)` clause (global negation) on a sequence partitioned by `k`: every stream of <= 5 events over
+            // {A, B, Cancel} x k in {1, 2, missing} is run through ONE partitioned engine; the reference is written by hand: per key, every A
+            // takes the earliest later B of its key and is reported iff no Cancel of that key lies between them.
+            use varpulis_runtime::sase::{SaseEngine, SasePattern};
+            let mk = |ty: &str, k: Option<i64>| { let e = Event::new(ty); match k { Some(k) => e.with_field("k", Value::Int(k)), None => e } };
+            let mut alphabet: Vec<Event> = Vec::new();
+            for ty in ["A", "B", "Cancel"] { for k in [Some(1), Some(2), None] { alphabet.push(mk(ty, k)) } }
+            let pattern = || SasePattern::Seq(vec![SasePattern::Event { event_type: "A".into(), predicate: None, alias: Some("a".into()) }, SasePattern::Event { event_type: "B".into(), predicate: None, alias: Some("b".into()) }]);
+            let n = alphabet.len(); let mut bad: Vec<String> = Vec::new(); let mut count = 0usize;
+            for len in 1..=5u32 { for sid in 0..n.pow(len) {
+                let mut x = sid; let mut stream: Vec<Event> = Vec::new();
+                for i in 0..len { let e = alphabet[x % n].clone().with_field("i", Value::Int(i as i64)); x /= n; stream.push(e) }
+                let pos = |m: &varpulis_runtime::sase::MatchResult| -> Vec<i64> { m.stack.iter().map(|s| s.event.get("i").and_then(|v| v.as_int()).unwrap_or(-1)).collect() };
+                let mut eng = SaseEngine::new(pattern()).with_partition_by("k".to_string()).with_negation("Cancel".to_string(), None);
+                let mut got: Vec<Vec<i64>> = Vec::new();
+                for e in &stream { for m in eng.process(e) { got.push(pos(&m)) } }
+                let mut want: Vec<Vec<i64>> = Vec::new();
+                // independent reference: per key, every A takes the earliest later B of its key; the match is reported iff no Cancel of that key lies between them
+                let kof = |e: &Event| e.get("k").and_then(|v| v.as_int());
+                for (i, a0) in stream.iter().enumerate() {
+                    if &*a0.event_type != "A" { continue }
+                    if let Some(j) = (i + 1..stream.len()).find(|&j| &*stream[j].event_type == "B" && kof(&stream[j]) == kof(a0)) {
+                        if !(i + 1..j).any(|c| &*stream[c].event_type == "Cancel" && kof(&stream[c]) == kof(a0)) { want.push(vec![i as i64, j as i64]) }
+                    }
+                }
+                got.sort(); want.sort(); count += 1;
+                if got != want && bad.len() < 3 { bad.push(format!("on {:?}: the partitioned engine reports {:?}, the per-key reference gives {:?}", stream.iter().map(|e| format!("{}(k={:?})", e.event_type, e.get("k").and_then(|v| v.as_int()))).collect::<Vec<_>>(), got, want)) }
+            } }
+            if bad.is_empty() { println!("OK negpart: {count} streams, the partitioned engine equals the per-key reference") } else { println!("REPRODUCED negpart: {}", bad.join("; ")); std::process::exit(1) }
+        }
         "seqfull" => {
             // C02: SaseEngine::process against an independent earliest-continuation reference.  Patterns SEQ of 2..3 steps over types {S, X, Y}
             // with an optional constant filter on one step and an optional cross-alias filter, optionally partitioned by `k`; every stream of
